@@ -208,6 +208,64 @@ def iwls_glue(chk, n, user_chol):
     return obs
 
 
+def iwls_multikey(chk):
+    """IWLS on a block of two keys listed in non-alphabetical order: flat coordinates follow ravel_pytree (a0, a1, b)"""
+    import liesel.goose as gs
+    import liesel.goose.iwls as iwls
+    k = iwls.IWLSKernel(["b", "a"])
+    k.set_model(gs.DictInterface(K.lp_ab))
+
+    def g(key, ss, st):
+        with stub_iwls_callees():
+            out = k._standard_transition(key, iwls.IWLSKernelState(ss), st, K.epoch_state(4, 0))
+        return dict(acc=out.info.acceptance_prob, st=out.model_state, moved=out.info.position_moved)
+    key = jax.random.PRNGKey(6)
+    ss = z3.Real("mk_s")
+    sst = symlike(K.STATE_AB, "mk")
+    enc = chk.note_enc(Enc("IWLS[b,a] (two keys, n=3)", g, (key, 0.5, K.STATE_AB), (root_key("k"), sc(ss), sst), chol="contract", key_roots={"k": key},
+                           domain={"mk_s": (0.2, 0.8), "mk_w": (1.0, 2.0), "mk_b": (0.0, 0.5)}))
+    a, b, m, w = sst["a"], cells(sst["b"])[0], sst["m"], cells(sst["w"])[0]
+    pre = [ss > 0, w > 0]
+    flat = lambda aa, bb: [aa[0], aa[1], bb]
+
+    def refs(V):
+        lp = lambda f: -((f[0] - m[0]) * (f[0] - m[0]) + (f[1] - m[1]) * (f[1] - m[1])) * w / 2 - V.exp(f[2]) + f[2] * f[0] / 2
+        grad = lambda f: [-(f[0] - m[0]) * w + f[2] / 2, -(f[1] - m[1]) * w, -V.exp(f[2]) + f[0] / 2]
+        F = lambda f: [[w, 0, -V.c(0.5)], [0, w, 0], [-V.c(0.5), 0, V.exp(f[2])]]
+        return lp, grad, F
+    obs = []
+
+    def o_info(V):
+        lp, grad, F = refs(V)
+        (A1, L1), (A2, L2) = V.I.chols
+        prop = cells(V.call("mvn_sample")[1][0])
+        x = flat(list(a), b)
+        return pre, z3.And(all_eq(A1, np.array(F(x), dtype=object)), all_eq(A2, np.array(F(prop), dtype=object)))
+    obs.append(Obligation("IWLS[b,a]: information (minus the autodiff Hessian) at x and at x' in ravel_pytree coordinate order (a0, a1, b)", [enc],
+                          lambda V: (pre, z3.BoolVal(True)) if V.replay else o_info(V), signature="IWLS[b,a]:info"))
+
+    def o_grad(V):
+        lp, grad, F = refs(V)
+        (s1a, s1o), (s2a, s2o) = V.call("solve", 0), V.call("solve", 1)
+        prop = cells(V.call("mvn_sample")[1][0])
+        return pre, z3.And(all_eq(s1a[1], np.array(grad(flat(list(a), b)), dtype=object)), all_eq(s2a[1], np.array(grad(prop), dtype=object)))
+    obs.append(Obligation("IWLS[b,a]: solve receives the autodiff gradient = analytic gradient in the same coordinate order, at x and at x'", [enc], o_grad, signature="IWLS[b,a]:grad"))
+
+    def o_acc(V):
+        lp, grad, F = refs(V)
+        prop = cells(V.call("mvn_sample")[1][0])
+        fwd = cells(V.call("mvn_log_prob", 0)[1][0])[0]
+        bwd = cells(V.call("mvn_log_prob", 1)[1][0])[0]
+        e = V.exp(lp(prop) - lp(flat(list(a), b)) + bwd - fwd)
+        mv = cells(V.out["moved"])[0]
+        o = V.out["st"]
+        return pre, z3.And(cells(V.out["acc"])[0] == z3.If(e <= 1, e, 1), o["a"][0] == z3.If(mv, prop[0], a[0]), o["a"][1] == z3.If(mv, prop[1], a[1]),
+                           cells(o["b"])[0] == z3.If(mv, prop[2], b), all_eq(o["m"], m), cells(o["w"])[0] == w)
+    obs.append(Obligation("IWLS[b,a]: acceptance = min(1, exp(dlogpi + bwd - fwd)); on acceptance every key of the block receives its own coordinates of the proposal", [enc], o_acc,
+                          signature="IWLS[b,a]:acc-state"))
+    return obs
+
+
 # ------------------------------------------------------------------ RW and MH glue
 def rw_glue(chk):
     k = K.make_kernel("rw", keys=["b", "a"])
@@ -347,6 +405,7 @@ def main():
     for n in ([2] if chk.tier == "quick" else [1, 2, 3]):
         obs += iwls_glue(chk, n, user_chol=False)
     obs += iwls_glue(chk, 2, user_chol=True)
+    obs += iwls_multikey(chk)
     obs += rw_glue(chk)
     obs += mh_glue(chk)
     obs += mh_fp32(chk)
